@@ -220,7 +220,15 @@ func (tr *tokenReader) nextIdent(firstRune rune) bool {
 
 func (tr *tokenReader) skipFollowingWhitespace() {
 	for {
-		b, _ := tr.readByte()
+		b, err := tr.readByte()
+		if err != nil {
+			// nothing was read, so there is nothing to put back: unreading here
+			// would return the comment's closing '/' to the stream
+			if err != io.EOF {
+				tr.addError(err)
+			}
+			return
+		}
 		switch b {
 		case '\n':
 			tr.loc.incLine()
